@@ -73,6 +73,23 @@ def make_targets(dim, variant, periodic=False):
             np.array([p[2] for p in pts]))
 
 
+def with_edge_target(tg, srcs, kernel):
+    """tg plus one target that sees a single source, and that one close to
+    the edge of its support (a very small, but not negligible, total
+    weight): beyond the source with the largest x."""
+    best = None
+    for pa in srcs:
+        x = pa.get('x', only_real_particles=False)
+        for i in range(len(x)):
+            if best is None or x[i] > best[0]:
+                best = (float(x[i]), float(pa.y[i]), float(pa.z[i]),
+                        float(pa.h[i]))
+    th = max(float(pa.h.max()) for pa in srcs)
+    d = 0.97 * kernel.radius_scale * 0.5 * (th + best[3])
+    return (np.append(tg[0], best[0] + d), np.append(tg[1], best[1]),
+            np.append(tg[2], best[2]))
+
+
 def reference(method, kernel, dim, sources, targets, th, field):
     """Direct evaluation of the defining sums.  field(j-array, values) picks
     the property to interpolate.  Returns array (n,) or (n,4) for order1."""
@@ -124,6 +141,16 @@ def reference(method, kernel, dim, sources, targets, th, field):
             sw = sum(W(d, r, 0.5 * (th + Hs[j])) for j, d, r in nb)
             swf = sum(W(d, r, 0.5 * (th + Hs[j])) * F[j] for j, d, r in nb)
             res[i] = swf / sw if sw > 1e-12 else swf
+            # contributors are the sources with a positive weight (a source
+            # inside the search radius rs*max(h) can lie outside the support
+            # of the kernel evaluated at the mean h)
+            vals = [F[j] for j, d, r in nb
+                    if W(d, r, 0.5 * (th + Hs[j])) > 0.0]
+            if 0.0 < sw <= 1e-9:
+                # total weight at (or within rounding of) the documented
+                # normalisation threshold: the mean-value side checks do
+                # not apply (the value itself is still compared)
+                vals = None
         elif method == 'sph':
             res[i] = sum(M[j] / RHO[j] * F[j] * W(d, r, 0.5 * (th + Hs[j]))
                          for j, d, r in nb)
@@ -169,7 +196,10 @@ def run_history(method, kname, dim, two, ops, periodic=False):
     reset_group_counter()
     kernel = getattr(K, kname)(dim=dim)
     srcs = make_sources(dim, 0, two)
+    srcs0 = srcs
     tg = make_targets(dim, 0, periodic)
+    if not periodic:
+        tg = with_edge_target(tg, srcs, kernel)
     th = max(float(pa.h.max()) for pa in srcs)
     dom = None
     if periodic:
@@ -215,6 +245,11 @@ def run_history(method, kname, dim, two, ops, periodic=False):
             vs += 1
             srcs = make_sources(dim, vs, two)
             ip.update_particle_arrays(srcs)
+        elif op == 'back':
+            # back to the very array objects the interpolator was built
+            # with (re-loading the first time step of a series)
+            srcs = srcs0
+            ip.update_particle_arrays(srcs0)
         elif op == 'move':
             for pa in srcs:
                 x = pa.get('x', only_real_particles=False)
@@ -311,7 +346,7 @@ def run_history(method, kname, dim, two, ops, periodic=False):
                             step=step, op=op, target=i, got=float(got[i]),
                             want=float(want[i]))))
                         break
-                    if method == 'shepard':
+                    if method == 'shepard' and vals is not None:
                         if not vals and got[i] != 0.0:
                             probs.append(('shepard:nonzero-without-source',
                                           dict(step=step, got=float(got[i]))))
@@ -353,7 +388,7 @@ def run_evaluator_history(method, kname, dim, ops):
                                  number_density=np.zeros_like(tg[0]))
         tpa.add_property('prop')
         return srcs, tpa, tg, th
-    srcs, tpa, tg, th = arrays(0)
+    srcs, tpa, tg, th = first = arrays(0)
     ev = SPHEvaluator(srcs + [tpa], [eqcls(dest='interpolate',
                                            sources=[p.name for p in srcs])],
                       dim=dim, kernel=kernel)
@@ -364,6 +399,9 @@ def run_evaluator_history(method, kname, dim, ops):
         if op == 'arrays':
             v += 1
             srcs, tpa, tg, th = arrays(v)
+            ev.update_particle_arrays(srcs + [tpa])
+        elif op == 'back':
+            srcs, tpa, tg, th = first
             ev.update_particle_arrays(srcs + [tpa])
         elif op == 'move':
             for pa in srcs:
@@ -393,7 +431,7 @@ def _ev_job(args):
     out = {}
     nev = nh = 0
     for d in range(0, depth + 1):
-        for ops in itertools.product(('arrays', 'move'), repeat=d):
+        for ops in itertools.product(('arrays', 'move', 'back'), repeat=d):
             try:
                 pr, n = run_evaluator_history(method, kname, dim, ops)
             except Exception as e:  # noqa
@@ -420,8 +458,9 @@ def _job(args):
     nev = 0
     nh = 0
     for d in range(0, depth + 1):
-        alphabet = ('points', 'arrays', 'move', 'vals') if periodic else \
-            ('points', 'arrays', 'move', 'grow', 'vals')
+        alphabet = ('points', 'arrays', 'move', 'vals', 'back') \
+            if periodic else \
+            ('points', 'arrays', 'move', 'grow', 'vals', 'back')
         for ops in itertools.product(alphabet, repeat=d):
             try:
                 pr, n = run_history(method, kname, dim, two, ops, periodic)
